@@ -2,9 +2,9 @@
 (***************************************************************************)
 (* Bounded model of Prec for C14: enumerates the cases of the property's    *)
 (* quantifier, runs the shift/reduce machine of Prec over every one of them *)
-(* (a transition system: state = (case, operand stack, pending operators,   *)
-(* remaining tokens), actions Shift / Reduce), checks the laws as           *)
-(* invariants and writes every case with the specification's prediction.    *)
+(* (a transition system: state = (case, its tokens, operand stack, pending  *)
+(* operators, remaining tokens), actions Shift / Reduce), checks the laws   *)
+(* as invariants and writes every case with the specification's prediction. *)
 (*                                                                           *)
 (* Families (tokens; a b c d operands, X Y Z binary, P Q postfix, ! prefix): *)
 (*   pair      a X b Y c              all ordered pairs of binary operators  *)
@@ -18,30 +18,38 @@
 (*   adj       a S1..Sk b , a S1..Sk  every string of k <= AdjLen pure        *)
 (*             operator symbols, written with blanks (tokens as written) and  *)
 (*             without (tokens = Lex of the characters)                       *)
+(*                                                                           *)
+(* The enumerations below use no RECURSIVE operator, so TLC evaluates them   *)
+(* once; everything recursive (Group, Lex, Classify ...) is evaluated in     *)
+(* Init, in the invariants and in Emit.                                      *)
 (***************************************************************************)
 EXTENDS Prec, Json, IOUtils
 
 CONSTANTS Thorough,      \* all triples / longer adjacencies
           SamplePermille \* share of the all-distinct-level triples taken in the quick tier
 
-VARIABLES cs, m
+VARIABLES cs, ts, m
 
 Seed == IF "VERIF_SEED" \in DOMAIN IOEnv THEN atoi(IOEnv.VERIF_SEED) ELSE 1
 
 NB == Len(BinOps)
 NP == Len(PreOps)
 NQ == Len(PostOps)
-BT(i) == Tok(BinOps[i])
-PT(i) == Tok(PreOps[i])
-QT(i) == Tok(PostOps[i])
+BinToks == [i \in 1..NB |-> Tok(BinOps[i])]
+PreToks == [i \in 1..NP |-> Tok(PreOps[i])]
+PostToks == [i \in 1..NQ |-> Tok(PostOps[i])]
+BT(i) == BinToks[i]
+PT(i) == PreToks[i]
+QT(i) == PostToks[i]
 A == Opd("a")
 B == Opd("b")
 C == Opd("c")
 D == Opd("d")
 
 \* ------------------------------------------------------------ token families
-PairSeqs == [p \in 1..(NB * NB) |->
-               <<A, BT(((p - 1) \div NB) + 1), B, BT(((p - 1) % NB) + 1), C>>]
+Plain(fam, toks) == [fam |-> fam, toks |-> toks]
+
+PairSet == {Plain("pair", <<A, BT(x), B, BT(y), C>>) : x \in 1..NB, y \in 1..NB}
 
 TripleIdx == {<<x, y, z>> : x \in 1..NB, y \in 1..NB, z \in 1..NB}
 LevelsDistinct(t) == Cardinality({BinOps[t[1]].lvl, BinOps[t[2]].lvl, BinOps[t[3]].lvl}) = 3
@@ -50,108 +58,103 @@ Sampled(t) ==
   IN ((n * 7919 + (Seed % 1000) * 104729 + 13) % 1009) * 1000 < SamplePermille * 1009
 TripleSel == IF Thorough THEN TripleIdx
              ELSE {t \in TripleIdx : ~LevelsDistinct(t) \/ Sampled(t)}
-TripleSeqs == LET s == SetToSeq(TripleSel)
-              IN [i \in 1..Len(s) |-> <<A, BT(s[i][1]), B, BT(s[i][2]), C, BT(s[i][3]), D>>]
+TripleSet == {Plain("triple", <<A, BT(t[1]), B, BT(t[2]), C, BT(t[3]), D>>) : t \in TripleSel}
 
-Grid2(n1, n2) == SetToSeq({<<x, y>> : x \in 1..n1, y \in 1..n2})
-Grid3(n1, n2, n3) == SetToSeq({<<x, y, z>> : x \in 1..n1, y \in 1..n2, z \in 1..n3})
-MapSeq(s, F(_)) == [i \in 1..Len(s) |-> F(s[i])]
+PreBinSet == {Plain("prebin", <<PT(p), A, BT(x), B>>) : p \in 1..NP, x \in 1..NB}
+BinPreSet == {Plain("binpre", <<A, BT(x), PT(p), B>>) : p \in 1..NP, x \in 1..NB}
+PrePostSet == {Plain("prepost", <<PT(p), A, QT(q)>>) : p \in 1..NP, q \in 1..NQ}
+              \cup {c \in {Plain("prepost", <<PT(p), A, QT(q), QT(r)>>) : p \in 1..NP, q \in 1..NQ, r \in 1..NQ} :
+                      Determined(c.toks)}
+PostBinSet == {Plain("postbin", <<A, QT(q), BT(x), B>>) : q \in 1..NQ, x \in 1..NB}
+              \cup {Plain("postbin", <<A, BT(x), B, QT(q)>>) : q \in 1..NQ, x \in 1..NB}
+PrePostBinSet == {Plain("prepostbin", <<PT(p), A, QT(q), BT(x), B>>) : p \in 1..NP, q \in 1..NQ, x \in 1..NB}
+                 \cup {Plain("prepostbin", <<PT(p), A, BT(x), B, QT(q)>>) : p \in 1..NP, q \in 1..NQ, x \in 1..NB}
 
-PreBinSeqs == MapSeq(Grid2(NP, NB), LAMBDA g : <<PT(g[1]), A, BT(g[2]), B>>)
-BinPreSeqs == MapSeq(Grid2(NB, NP), LAMBDA g : <<A, BT(g[1]), PT(g[2]), B>>)
-PrePost1Seqs == MapSeq(Grid2(NP, NQ), LAMBDA g : <<PT(g[1]), A, QT(g[2])>>)
-PrePost2Seqs == SelectSeq(MapSeq(Grid3(NP, NQ, NQ), LAMBDA g : <<PT(g[1]), A, QT(g[2]), QT(g[3])>>),
-                          Determined)
-PostBinSeqs == MapSeq(Grid2(NQ, NB), LAMBDA g : <<A, QT(g[1]), BT(g[2]), B>>)
-BinPostSeqs == MapSeq(Grid2(NB, NQ), LAMBDA g : <<A, BT(g[1]), B, QT(g[2])>>)
-PrePostBinSeqs == MapSeq(Grid3(NP, NQ, NB), LAMBDA g : <<PT(g[1]), A, QT(g[2]), BT(g[3]), B>>)
-PreBinPostSeqs == MapSeq(Grid3(NP, NB, NQ), LAMBDA g : <<PT(g[1]), A, BT(g[2]), B, QT(g[3])>>)
-
-Spaced(fam, ts) ==
-  [fam |-> fam, parts |-> [i \in 1..Len(ts) |-> SrcText(ts[i])], sep |-> " ",
-   toks |-> ts, expect |-> Show(Group(ts)), chars |-> <<>>]
-Fam(fam, seqs) == [i \in 1..Len(seqs) |-> Spaced(fam, seqs[i])]
+PlainCases == SetToSeq(PairSet) \o SetToSeq(TripleSet) \o SetToSeq(PreBinSet) \o SetToSeq(BinPreSet)
+              \o SetToSeq(PrePostSet) \o SetToSeq(PostBinSet) \o SetToSeq(PrePostBinSet)
+NPlain == Len(PlainCases)
 
 \* ------------------------------------------------------------ adjacency family
-AdjLen == IF Thorough THEN 3 ELSE 2
-SymSeqSet(k) == IF k = 1 THEN {<<s>> : s \in SymSet}
-                ELSE IF k = 2 THEN {<<s, u>> : s \in SymSet, u \in SymSet}
-                ELSE {<<s, u, w>> : s \in SymSet, u \in SymSet, w \in SymSet}
-SymSeqs == UNION {SymSeqSet(k) : k \in 1..AdjLen}
+\* a run = 1 .. AdjLen pure operator symbols; spaced: the names as written; compact: the characters
+Syms1 == {<<e>> : e \in SymRows}
+Syms2 == {<<e, f>> : e \in SymRows, f \in SymRows}
+Syms3 == {<<e, f, g>> : e \in SymRows, f \in SymRows, g \in SymRows}
+RunSet == IF Thorough THEN Syms1 \cup Syms2 \cup Syms3 ELSE Syms1 \cup Syms2
+RunChars(r) == IF Len(r) = 1 THEN r[1].cs
+               ELSE IF Len(r) = 2 THEN r[1].cs \o r[2].cs
+               ELSE r[1].cs \o r[2].cs \o r[3].cs
+RunNames(r) == [j \in 1..Len(r) |-> r[j].n]
 \* the documentation's `? type' with the type `!' (never) makes `?' followed by `!' a level-1
 \* form, not the filter operator followed by NOT; the table does not settle it: left out
 QuestionBang(chars) == \E i \in 1..(Len(chars) - 1) : chars[i] = "?" /\ chars[i + 1] = "!"
-RunChars(ss) == FlattenSeq(ss)
 Contexts == {"ab", "a"}
+AdjSpacedSet == {[fam |-> "adj_spaced", ctx |-> ctx, names |-> RunNames(r), chars |-> RunChars(r)] :
+                   ctx \in Contexts, r \in {x \in RunSet : ~QuestionBang(RunChars(x))}}
+AdjCompactSet == {[fam |-> "adj_compact", ctx |-> ctx, names |-> <<>>, chars |-> ch] :
+                    ctx \in Contexts, ch \in {c \in {RunChars(r) : r \in RunSet} : ~QuestionBang(c)}}
+AdjCases == SetToSeq(AdjSpacedSet) \o SetToSeq(AdjCompactSet)
+NAdj == Len(AdjCases)
+NC == NPlain + NAdj
+
 Wrap(ctx, names) == IF ctx = "ab" THEN <<"a">> \o names \o <<"b">> ELSE <<"a">> \o names
+AdjNames(c) == Wrap(c.ctx, IF c.fam = "adj_compact" THEN Lex(c.chars) ELSE c.names)
+AdjToks(c) == LET k == Classify(AdjNames(c))
+              IN IF Accepted(k) /\ Determined(k) THEN k ELSE <<>>
 
-AdjCase(ctx, names, sep, chars) ==
-  LET ts == Classify(Wrap(ctx, names))
-      ok == Accepted(ts) /\ Determined(ts)
-  IN [fam |-> IF sep = "" THEN "adj_compact" ELSE "adj_spaced",
-      parts |-> IF sep = "" THEN Wrap(ctx, <<Cat(chars)>>) ELSE Wrap(ctx, names), sep |-> sep,
-      toks |-> IF ok THEN ts ELSE <<>>,
-      expect |-> IF ok THEN Show(Group(ts)) ELSE "reject", chars |-> chars]
-
-AdjSpaced == LET s == SetToSeq({<<ctx, ss>> : ctx \in Contexts,
-                                 ss \in {x \in SymSeqs : ~QuestionBang(RunChars(x))}})
-             IN [i \in 1..Len(s) |->
-                   AdjCase(s[i][1], [j \in 1..Len(s[i][2]) |-> Cat(s[i][2][j])], " ", RunChars(s[i][2]))]
-CompactRuns == {RunChars(ss) : ss \in SymSeqs} \ {r \in {RunChars(ss) : ss \in SymSeqs} : QuestionBang(r)}
-AdjCompact == LET s == SetToSeq({<<ctx, r>> : ctx \in Contexts, r \in CompactRuns})
-              IN [i \in 1..Len(s) |-> AdjCase(s[i][1], Lex(s[i][2]), "", s[i][2])]
-
-Cases == Fam("pair", PairSeqs) \o Fam("triple", TripleSeqs)
-         \o Fam("prebin", PreBinSeqs) \o Fam("binpre", BinPreSeqs)
-         \o Fam("prepost", PrePost1Seqs) \o Fam("prepost", PrePost2Seqs)
-         \o Fam("postbin", PostBinSeqs) \o Fam("postbin", BinPostSeqs)
-         \o Fam("prepostbin", PrePostBinSeqs) \o Fam("prepostbin", PreBinPostSeqs)
-         \o AdjSpaced \o AdjCompact
-NC == Len(Cases)
+IsPlain(i) == i <= NPlain
+CaseFam(i) == IF IsPlain(i) THEN PlainCases[i].fam ELSE AdjCases[i - NPlain].fam
+CaseToks(i) == IF IsPlain(i) THEN PlainCases[i].toks ELSE AdjToks(AdjCases[i - NPlain])
+CaseChars(i) == IF IsPlain(i) THEN <<>> ELSE AdjCases[i - NPlain].chars
+CaseParts(i) ==
+  IF IsPlain(i) THEN [j \in 1..Len(PlainCases[i].toks) |-> SrcText(PlainCases[i].toks[j])]
+  ELSE LET c == AdjCases[i - NPlain]
+       IN IF c.fam = "adj_compact" THEN Wrap(c.ctx, <<Cat(c.chars)>>) ELSE Wrap(c.ctx, c.names)
+CaseSep(i) == IF CaseFam(i) = "adj_compact" THEN "" ELSE " "
+ExpectOf(toks) == IF toks = <<>> THEN "reject" ELSE Show(Group(toks))
 
 \* ------------------------------------------------------------ the transition system
 Init == /\ cs \in 1..NC
-        /\ m = MInit(Cases[cs].toks)
-Reduce == MustReduce(m) /\ m' = MReduce(m) /\ UNCHANGED cs
-Shift == ~MustReduce(m) /\ m.rest # <<>> /\ m' = MShift(m) /\ UNCHANGED cs
+        /\ ts = CaseToks(cs)
+        /\ m = MInit(ts)
+Reduce == MustReduce(m) /\ m' = MReduce(m) /\ UNCHANGED <<cs, ts>>
+Shift == ~MustReduce(m) /\ m.rest # <<>> /\ m' = MShift(m) /\ UNCHANGED <<cs, ts>>
 Next == Reduce \/ Shift
-Spec == Init /\ [][Next]_<<cs, m>>
+Spec == Init /\ [][Next]_<<cs, ts, m>>
 
-Ts == Cases[cs].toks
-AtStart == m = MInit(Ts)
-Grouped == Ts # <<>>
+AtStart == m = MInit(ts)
+Grouped == ts # <<>>
 
 \* laws ---------------------------------------------------------------------
 \* the cases are inside the module's domain and Group always finds a legal split
-InvDomain == AtStart /\ Grouped => WellFormed(Ts) /\ Determined(Ts) /\ GroupSplitOk(Ts)
+InvDomain == AtStart /\ Grouped => WellFormed(ts) /\ Determined(ts) /\ GroupSplitOk(ts)
 \* Group uses every token exactly once, in order
-InvTokensOnce == AtStart /\ Grouped => Toks(Group(Ts)) = Ts
+InvTokensOnce == AtStart /\ Grouped => Toks(Group(ts)) = ts
 \* the table determines exactly one tree, and it is Group's
-InvUnique == AtStart /\ Grouped => UniqueAdmissible(Ts)
+InvUnique == AtStart /\ Grouped => UniqueAdmissible(ts)
 \* the machine neither loses nor duplicates tokens
-InvConserve == MCount(m) = Len(Ts)
+InvConserve == MCount(m) = Len(ts)
 \* precedence climbing arrives at the declarative grouping
-InvAgree == Grouped /\ MDone(m) => m.opds = <<Group(Ts)>>
+InvAgree == Grouped /\ MDone(m) => m.opds = <<Group(ts)>>
 \* the machine stops only when it is done
 InvProgress == Grouped => MDone(m) \/ ENABLED Next
 \* maximal munch: lossless, maximal, and no multi-character operator is ever split
-InvLex == AtStart /\ Cases[cs].chars # <<>> =>
-            /\ LexLossless(Cases[cs].chars) /\ LexMaximal(Cases[cs].chars)
-            /\ \A nm \in Range(Lex(Cases[cs].chars)) : nm \in SymNames
-InvTable == AtStart /\ cs = 1 => TableIsFunction /\ NeverSplit
+InvLex == AtStart /\ CaseChars(cs) # <<>> =>
+            LET ch == CaseChars(cs) IN
+            /\ LexLossless(ch) /\ LexMaximal(ch)
+            /\ \A j \in 1..Len(Lex(ch)) : Lex(ch)[j] \in SymNames
+InvTable == AtStart /\ cs = 1 => TableIsFunction /\ NamesAreChars /\ NeverSplit
 
 \* ------------------------------------------------------------ emission
 Out == IOEnv.VERIF_OUT
-FamCount(f) == Cardinality({i \in 1..NC : Cases[i].fam = f})
+Fams == {"pair", "triple", "prebin", "binpre", "prepost", "postbin", "prepostbin", "adj_spaced", "adj_compact"}
 Emit ==
   /\ TLCGet("stats").distinct > 0
   /\ ndJsonSerialize(Out \o "/prec_cases.ndjson",
-        [i \in 1..NC |-> [id |-> i, fam |-> Cases[i].fam, parts |-> Cases[i].parts,
-                          sep |-> Cases[i].sep, expect |-> Cases[i].expect,
-                          toks |-> [j \in 1..Len(Cases[i].toks) |->
-                                      <<Cases[i].toks[j].t, Cases[i].toks[j].s>>]]])
-  /\ PrintT(<<"COUNTS", ToJson([f \in {"pair", "triple", "prebin", "binpre", "prepost", "postbin",
-                                      "prepostbin", "adj_spaced", "adj_compact"} |-> FamCount(f)])>>)
-  /\ PrintT(<<"TABLE", ToJson([bin |-> NB, pre |-> NP, post |-> NQ, syms |-> Cardinality(SymSet),
-                               rejects |-> Cardinality({i \in 1..NC : Cases[i].expect = "reject"})])>>)
+        [i \in 1..NC |->
+           LET k == CaseToks(i)
+           IN [id |-> i, fam |-> CaseFam(i), parts |-> CaseParts(i), sep |-> CaseSep(i),
+               expect |-> ExpectOf(k), toks |-> [j \in 1..Len(k) |-> <<k[j].t, k[j].s>>]]])
+  /\ PrintT(<<"COUNTS", ToJson([f \in Fams |-> Cardinality({i \in 1..NC : CaseFam(i) = f})])>>)
+  /\ PrintT(<<"TABLE", ToJson([bin |-> NB, pre |-> NP, post |-> NQ, syms |-> Cardinality(SymRows),
+                               cases |-> NC])>>)
 =============================================================================
